@@ -12,6 +12,13 @@ func init() {
 	RegisterBuiltin("request-id", func(name string, cfg map[string]interface{}) (Middleware, error) {
 		return func(next http.Handler) http.Handler {
 			return http.HandlerFunc(func(w http.ResponseWriter, r *http.Request) {
+				// Keep an ID supplied by the client or set by the request context middleware
+				if existing := r.Header.Get("X-Request-ID"); existing != "" {
+					w.Header().Set("X-Request-ID", existing)
+					next.ServeHTTP(w, r)
+					return
+				}
+
 				b := make([]byte, 16)
 				_, err := rand.Read(b)
 				if err != nil {
